@@ -226,6 +226,21 @@ def case_embed(rng, adversarial=False):
     return line, out, meta, has_transparency or opened_mode not in ('RGB', 'L'), tags
 
 
+def fixed_cmyk_family():
+    """A fixed family, run first: an Adobe CMYK JPEG (Pillow writes the APP14 marker: the samples are stored
+    inverted) under every image-orientation x optimize_images: `/Decode [1 0 …]` must be there whether or not the
+    image was transposed (a transposed Pillow image has lost the JPEG plugin's `.app` dictionary)."""
+    cases = []
+    for orientation in ('none', 'from-image', (90, False), (180, False), (0, True), (270, True)):
+        for optimize in (False, True):
+            meta = {'fn': 'RasterImage', 'source': ['CMYK', 'JPEG', False, [3, 2], 0],
+                    'orientation': orientation if isinstance(orientation, str) else list(orientation),
+                    'earlier': None, 'optimize': optimize, 'jpeg_quality': None}
+            line, out = replay_embed(meta)
+            cases.append((line, out, meta, True, ['embed:fixed-cmyk-jpeg']))
+    return cases
+
+
 def replay_embed(meta):
     """Re-run a case from its meta -> (line, out)."""
     mode, fmt, transparency, size, variant = meta['source']
